@@ -236,12 +236,12 @@ def run_both(cases, harness_bin, driver_bin, shards=8, pin_cpu=None):
 
 def split_lines(lines):
     """-> dict kind -> {idx: rest}"""
-    d = {"R": {}, "E": {}, "S": {}, "V": {}, "ERROR": []}
+    d = {"R": {}, "E": {}, "S": {}, "V": {}, "W": {}, "ERROR": []}
     for l in lines:
         if l.startswith("ERROR"):
             d["ERROR"].append(l)
             continue
-        m = re.match(r"^([RESV]) (\d+) ?(.*)$", l)
+        m = re.match(r"^([RESVW]) (\d+) ?(.*)$", l)
         if m:
             d[m.group(1)][int(m.group(2))] = m.group(3)
     return d
